@@ -120,6 +120,21 @@ CHECKS.update({
     ref="DESIGN.md section 7 C19"),
 })
 NOT_YET = {}
+
+# later sessions: what was added on top of the texts above
+ADDENDA = {
+ "C02": " Added: the size-bound clause for the BASE MODULES of TopoART and DualVigilanceART, generically in the base module (Wrap_bound.v) and instantiated for Fuzzy (|w| >= rho d), Hypersphere and Ellipsoid ART at the level of whole fit calls, under every mode that never lowers the vigilance (true only since /repo 79caf04 / 8381662: match tracking fires on vigilance-passing vetoed categories alone). Oracles: wrapped streams with reset functions, late set_params on the base module, DualVigilanceART over BayesianART, boundary beta_lower; probes of the independent audits (DESIGN 0.9).",
+ "C04": " Added: whole-call totality for two compound estimators, TopoART and DualVigilanceART over Fuzzy ART with alpha > 0 (two-winner search, both updates, pruning rounds with re-prediction; the category-to-cluster map is total by the map invariant). Oracle: every boundary value of every hyper-parameter that validate_params accepts must train and predict (found and repaired: tau=0, r_hat<=0, sigma_init<=0, L=inf, singular cov_init); audit probes.",
+ "C08": " The purity snapshot compares the whole __dict__ (remembered widths included; CVIART.predict creating dim_ was a genuine defect, repaired).",
+ "C11": " Added: with channels withheld the activation IS the gamma-weighted sum of the remaining channels' own activations (Fusion_skip.v; a skipped channel contributes 0 since /repo ee23ec6), prepare/restore with skipped channels (Fusion_prep.v). Oracles: arbitrary fillers (NaN, out of range, not complement coded) in the skipped columns, step_pred with negative indices, non-dyadic gammas with all but one channel withheld (rounding), an ART1 channel withheld, channels of mixed dtypes.",
+ "C13": " Added: every base category obeys the base module's upper-vigilance bound after every whole fit call (Fuzzy, Hypersphere, Ellipsoid instances of the generic theorem in Wrap_bound.v).",
+ "C14": " Added: both winners passed a vigilance at least as large as the configured one under every mode that never lowers it (Topo_bound.v), with the pre-fix search kept as a refuted variant (C14_search_before_fix_refuted); re-labelling at a pruning round (Topo_labels.v).",
+ "C18": " Added oracles: a wrong-width matrix at the FIRST call for the modules whose hyper-parameters fix the width (ART2A, BayesianART, GaussianART: three defects repaired), integer-dtype invalid batches.",
+ "C19": " The protocol model now states validate-then-assign (a rejected set_params changes nothing: C19_rejected_call_changes_nothing; the old behaviour is kept as set_params_before_fix_refuted). Oracles: rejected calls leave all params and attributes unchanged, module-valued entries in the set_params(get_params) round trip, doubly nested names.",
+}
+for _k, _v in ADDENDA.items():
+    CHECKS[_k]["text"] += _v
+
 def main():
     props = [json.loads(l) for l in open(os.path.join(V, "properties.jsonl"))]
     checks, na = [], []
